@@ -121,3 +121,44 @@ theorem mapM_ok {α β : Type} (f : α → R β) : ∀ (l : List α) (ps : List 
             exact ⟨e, List.mem_cons_of_mem _ he, hfk⟩
 
 end Tak
+
+namespace Tak
+
+theorem image_pair_unpack (basis : Array W) (p : Pos) (k : Fin 8) (e : Pos × Fin 8)
+    (hk : (do let q ← imagePos basis p k; pure (q, k) : R (Pos × Fin 8)) = .ok e) :
+    imagePos basis p k = .ok e.1 ∧ e.2 = k := by
+  cases hq : imagePos basis p k with
+  | error err => simp [hq, bind, Except.bind] at hk
+  | ok q => simp [hq, bind, Except.bind, pure, Except.pure] at hk; subst hk; exact ⟨rfl, rfl⟩
+
+/-- every pair returned by `Symmetries` is (the `k`-th rebuilt image, `k`), and every one of the eight
+images has a representative with the same hash in the list -/
+theorem symmetries_mem (basis : Array W) (p : Pos) (rs : List (Pos × Fin 8)) (h : symmetries basis p = .ok rs) :
+    (∀ e ∈ rs, imagePos basis p e.2 = .ok e.1) ∧
+    (∀ k q, imagePos basis p k = .ok q → ∃ e ∈ rs, e.1.hashOf = q.hashOf) := by
+  unfold symmetries at h
+  cases hps : (List.finRange 8).mapM (fun k => do let q ← imagePos basis p k; pure (q, k)) with
+  | error e => rw [hps] at h; cases h
+  | ok ps =>
+    rw [hps] at h
+    have hrs : rs = dedupByHash ps [] [] := by cases h; rfl
+    obtain ⟨m1, m2⟩ := mapM_ok _ _ _ hps
+    have hmem : ∀ e ∈ ps, imagePos basis p e.2 = .ok e.1 := by
+      intro e he
+      obtain ⟨k, _, hk⟩ := m1 e he
+      obtain ⟨h1, h2⟩ := image_pair_unpack basis p k e hk
+      rw [h2]; exact h1
+    subst hrs
+    constructor
+    · intro e he
+      rcases dedup_mem ps [] [] e he with h | h
+      · simp at h
+      · exact hmem e h
+    · intro k q hq
+      obtain ⟨a, ha, hk⟩ := m2 k (List.mem_finRange k)
+      obtain ⟨h1, _⟩ := image_pair_unpack basis p k a hk
+      rw [hq] at h1
+      cases h1
+      exact dedup_cover ps [] [] (by simp) a ha
+
+end Tak
